@@ -156,7 +156,7 @@ def parse_drv(txt):
             continue
         if t[0] == 'I':
             cur = int(t[1])
-            res[cur] = {'m': {}, 's': {}, 'd': {}, 'k': {}, 'g': {}, 'i': {}, 't': {}, 'q': {}, 'j': {}}
+            res[cur] = {'m': {}, 's': {}, 'd': {}, 'k': {}, 'g': {}, 'i': {}, 't': {}, 'q': {}, 'j': {}, 'r': {}}
         elif cur is None:
             continue
         elif t[0] == 'm':
@@ -170,6 +170,10 @@ def parse_drv(txt):
         elif t[0] == 'j':
             # invariants of Vpsc/StaticInvB.v on every state of the static model's merge pass
             res[cur]['j'][int(t[1])] = {'dag': t[2] == '1', 'mask': int(t[3]), 'states': int(t[4]), 'allsat': t[5] == '1', 'same': t[6] == '1'}
+        elif t[0] == 'r':
+            # invariants of Vpsc/StaticRefB.v on every split of the static model's refine()
+            res[cur]['r'][int(t[1])] = {'dag': t[2] == '1', 'sat_ok': t[3] == '1', 'ref_ok': t[4] == '1', 'mask': int(t[5]),
+                                        'splits': int(t[6]), 'allsat': t[7] == '1', 'same': t[8] == '1'}
         elif t[0] == 't':
             # the static Solver model (Vpsc/StaticModel.v) on a static instance
             k = int(t[1])
